@@ -93,6 +93,9 @@ def _check_ghost(src, target):
             int(parts[2]), int(parts[3])
             return
         raise ValueError('%s: bad split directive: %s' % (target, src))
+    if src.strip().startswith('case '):
+        ast.parse(src.strip()[5:].strip(), mode='eval')
+        return
     if src.strip().startswith('cut '):
         ast.parse(src.strip()[4:].strip(), mode='eval')
         return
